@@ -73,6 +73,14 @@ func (p *page) apply(c sjs.Call) {
 			p.bad = fmt.Sprintf("drawCell(%d,%d) outside the %dx%d grid", x, y, p.w, p.h)
 			return
 		}
+		for _, a := range []struct {
+			i    int
+			what string
+		}{{3, "foreground"}, {4, "background"}, {7, "underline colour"}} {
+			if v := argInt(c.Args[a.i]); (v < 0 || v > 0xffffff) && p.bad == "" {
+				p.bad = fmt.Sprintf("drawCell(%d,%d): the %s %d is not a 24-bit value", x, y, a.what, v)
+			}
+		}
 		s, _ := c.Args[2].(string)
 		p.cells[y*p.w+x] = pcell{s: s, fg: argInt(c.Args[3]), bg: argInt(c.Args[4]), attrs: argInt(c.Args[5]), us: argInt(c.Args[6]), uc: argInt(c.Args[7]), drawn: p.show, set: true}
 		p.draws = append(p.draws, [2]int{x, y})
@@ -144,7 +152,12 @@ type op struct {
 }
 
 func drawColor(t *rapid.T, label string) tcell.Color {
-	switch rapid.IntRange(0, 7).Draw(t, label) {
+	switch rapid.IntRange(0, 9).Draw(t, label) {
+	case 8:
+		return tcell.ColorReset
+	case 9:
+		// a valid palette index that no table gives an RGB value for
+		return tcell.PaletteColor(rapid.IntRange(379, 2000).Draw(t, label+"big"))
 	case 0:
 		return tcell.ColorDefault
 	case 1:
@@ -705,6 +718,88 @@ func cbNames(cbs []cb) []string {
 	return out
 }
 
+// ---- (b2) callback bursts while the application is busy ----
+
+// runBurst: the JavaScript side delivers more callbacks than the event queue
+// holds while the application is busy elsewhere (not polling).  Each callback
+// runs on its own goroutine and may have to wait; when the application polls
+// again every one of them must have become an event (as a multiset: the
+// order among callbacks that wait at the same time is not defined).
+func runBurst(t *rapid.T) {
+	n := rapid.IntRange(8, 30).Draw(t, "burst")
+	busy := rapid.SampledFrom([]int{1, 5, 50}).Draw(t, "busyms")
+	paste := rapid.Bool().Draw(t, "paste")
+	ch := hx.DrawChooser(t, 80)
+	w, err := newWW(ch)
+	if err != nil {
+		t.Fatalf("HARNESS: %v", err)
+	}
+	w.s.Note(hx.Fingerprint("burst", n, busy, paste))
+	ready := false
+	fired := 0
+	w.s.Spawn("app", func() {
+		if err := w.scr.Init(); err != nil {
+			w.failf("C19/event", "Init: %v", err)
+			ready = true
+			return
+		}
+		if paste {
+			w.scr.EnablePaste()
+		}
+		ready = true
+		// busy elsewhere: a render loop waiting for its next frame
+		simrt.Sleep("app.busy", hx.Ms(busy))
+		simrt.Wait("burst-fired", func() bool { return fired == n })
+		for len(w.got) < n {
+			ev := w.scr.PollEvent()
+			if ev == nil {
+				return
+			}
+			w.got = append(w.got, desc(ev))
+			if !w.scr.HasPendingEvent() && len(w.got) < n {
+				// let the waiting callbacks move up
+				simrt.Sleep("app.frame", hx.Ms(1))
+				if !w.scr.HasPendingEvent() {
+					return
+				}
+			}
+		}
+	})
+	w.s.Spawn("host", func() {
+		simrt.Wait("ready", func() bool { return ready })
+		for i := 0; i < n; i++ {
+			key := string(rune('a' + i%26))
+			simrt.Go("js-callback", func() { w.host.Invoke("onKeyEvent", key, false, false, false, false) })
+			fired++
+		}
+	})
+	w.s.Run()
+	if w.fail == nil && len(w.got) != n {
+		w.failf("C19/event", "%d key callbacks arrived while the application was busy for %d ms (the event queue holds 10); only %d became events: %v", n, busy, len(w.got), w.got)
+	}
+	if w.fail == nil {
+		cnt := map[string]int{}
+		for _, g := range w.got {
+			cnt[g]++
+		}
+		for i := 0; i < n; i++ {
+			cnt[fmt.Sprintf("key:%d:%d:0", tcell.KeyRune, 'a'+i%26)]--
+		}
+		for k, v := range cnt {
+			if v != 0 {
+				w.failf("C19/event", "burst of %d key callbacks: event %s delivered %+d times too often/seldom (%v)", n, k, v, w.got)
+				break
+			}
+		}
+	}
+	fin := w.s.Spawn("fini", func() { w.scr.Fini() })
+	w.s.Run()
+	if !fin.Done() {
+		w.failf("C19/deadlock", "Fini never returns after a callback burst: %v", w.s.Blocked())
+	}
+	w.finish(t, map[string]interface{}{"kind": "burst", "callbacks": n, "busy_ms": busy}, map[string]int{"js_callback": n, "callback_burst": 1})
+}
+
 // ---- (c) lifecycle orders ----
 
 var lifeOps = []string{"Suspend", "Resume", "SetSize", "Fini"}
@@ -853,11 +948,13 @@ func TestC19(t *testing.T) {
 		}
 		hx.Arm("C19")
 		defer hx.Disarm()
-		switch rapid.IntRange(0, 2).Draw(rt, "part") {
+		switch rapid.IntRange(0, 3).Draw(rt, "part") {
 		case 0:
 			runDrawHistory(rt)
 		case 1:
 			runCallbacks(rt)
+		case 3:
+			runBurst(rt)
 		default:
 			n := rapid.IntRange(5, 9).Draw(rt, "len")
 			var order []int
